@@ -421,14 +421,15 @@ def aimed_space(shard: int, nshards: int, multiline: bool = False) -> Iterator[t
                 yield f"aimed:{name}", ssb.layout(sym, SCHEMES[c % 4], start=(c % 2) * 7)
 
 
-def program_space(seed: int, n_random: int, shard: int, nshards: int, *, multiline: bool = False, relayout: bool = True, small: bool = True, depth: int = 2) -> Iterator[tuple[str, dict]]:
+def program_space(seed: int, n_random: int, shard: int, nshards: int, *, multiline: bool = False, relayout: bool = True, small: bool = True, depth: int = 2, small_relayout_stride: int = 1) -> Iterator[tuple[str, dict]]:
     """(a) + (c): compiled programs (fixed corpus, exhaustive small statement trees, seeded random ones) and re-layouts."""
     from gen import ssb
 
     def emit(tag: str, sym: dict, i: int) -> Iterator[tuple[str, dict]]:
         yield f"prog:{tag}", ssb.layout(sym, SCHEMES[i % 4])
-        if relayout:
-            rng = item_rng(seed, "relayout", i)
+        if relayout and (tag != "small" or i % small_relayout_stride == 0):
+            # the fixed corpus and the exhaustive small programs (and their re-layouts) do not depend on the seed
+            rng = item_rng(seed if tag == "random" else 0, "relayout", i)
             for kind, s2 in ssb.relayouts(sym, rng):
                 yield f"relayout:{kind}", ssb.layout(s2, SCHEMES[(i + 1) % 4])
 
